@@ -16,7 +16,7 @@ Definition stamps := list (list (list (nat * nat))).
 Inductive case :=
   | Cache (capacity : nat) (calls : list (list ccall)) (st : stamps) (sch : list (choice unit))
   | Text (contents : list (list (nat * nat))) (badl : list bool) (cache_enabled : bool)
-         (calls : list (list tcall)) (st : stamps) (sch : list (choice unit))
+         (calls : list (list tcall)) (st : stamps) (sch : list (choice nat))
   | Store (calls : list (list scall)) (st : stamps) (sch : list (choice unit))
   | Yaml (table : list (list ydata)) (tree : list nat) (w0 : list nat) (ncalls : list nat) (st : stamps)
          (sch : list (choice nat)) (post : bool).
@@ -31,13 +31,14 @@ Definition c_init (capacity : nat) calls :=
 Definition c_run locked := run lru unit (ccall * R) ccall R unit c_begin (cache_prog locked) c_ret c_env.
 
 Definition t_begin (c : tcall) : tls := {| tc := c; statv := None; tres := [] |}.
-Definition t_env (_ : unit) (w : nat) : nat := S w.
+(* worlds are file identities; an environment event switches the path to file state e (possibly an earlier one) *)
+Definition t_env (e : nat) (_ : nat) : nat := e.
 Definition t_contents (l : list (list (nat * nat))) (w : nat) := nth w l [].
 Definition t_bad (l : list bool) (w : nat) := nth w l false.
 Definition t_init calls := init tobj nat tls tcall R (t_begin (TGet 0)) {| fver := None; parsed := [] |} 0 calls.
 Definition t_prog contents badl ce locked := text_prog (t_contents contents) (t_bad badl) ce locked.
 Definition t_run contents badl ce locked :=
-  run tobj nat tls tcall R unit t_begin (t_prog contents badl ce locked) tres t_env.
+  run tobj nat tls tcall R nat t_begin (t_prog contents badl ce locked) tres t_env.
 
 Definition s_begin (c : scall) : scall * R := (c, []).
 Definition s_ret (l : scall * R) : R := snd l.
@@ -73,7 +74,7 @@ Definition tr_init calls st :=
   init (robj tobj) nat (rls tls) (rcall tcall) (option R) (rbegin _ _ t_begin (TGet 0, (0, [])))
        ({| fver := None; parsed := [] |}, repeat 0 (length calls)) 0 (rcalls calls st).
 Definition tr_run contents badl ce :=
-  run (robj tobj) nat (rls tls) (rcall tcall) (option R) unit
+  run (robj tobj) nat (rls tls) (rcall tcall) (option R) nat
       (rbegin _ _ t_begin) (rprog _ _ _ _ (text_body (t_contents contents) (t_bad badl) ce)) (rret _ _ tres) t_env.
 Definition sr_init calls st :=
   init (robj store) unit (rls (scall * R)) (rcall scall) (option R) (rbegin _ _ s_begin (SGetData 0, (0, [])))
@@ -99,8 +100,8 @@ Definition fuel_for {E A} (sch : list (choice E)) (calls : list (list A)) : nat 
 Definition c_search capacity calls (sch : list (choice unit)) (o : obs) : bool :=
   search lru unit (ccall * R) ccall R unit c_begin (cache_prog true) c_ret c_env r_eqb
          (fuel_for sch calls) (c_init capacity calls) (envs_of sch) o.
-Definition t_search contents badl ce calls (sch : list (choice unit)) (o : obs) : bool :=
-  search tobj nat tls tcall R unit t_begin (t_prog contents badl ce true) tres t_env r_eqb
+Definition t_search contents badl ce calls (sch : list (choice nat)) (o : obs) : bool :=
+  search tobj nat tls tcall R nat t_begin (t_prog contents badl ce true) tres t_env r_eqb
          (fuel_for sch calls) (t_init calls) (envs_of sch) o.
 Definition s_search calls (sch : list (choice unit)) (o : obs) : bool :=
   search store unit (scall * R) scall R unit s_begin store_prog s_ret c_env r_eqb
@@ -112,8 +113,8 @@ Definition cr_search capacity calls st (sch : list (choice unit)) (o : obs) : bo
   search (robj lru) unit (rls (ccall * R)) (rcall ccall) (option R) unit (rbegin _ _ c_begin)
          (rprog _ _ _ _ cache_body) (rret _ _ c_ret) c_env (opt_eqb r_eqb)
          (fuel_for sch calls) (cr_init capacity calls st) (envs_of sch) (wrap_obs o).
-Definition tr_search contents badl ce calls st (sch : list (choice unit)) (o : obs) : bool :=
-  search (robj tobj) nat (rls tls) (rcall tcall) (option R) unit (rbegin _ _ t_begin)
+Definition tr_search contents badl ce calls st (sch : list (choice nat)) (o : obs) : bool :=
+  search (robj tobj) nat (rls tls) (rcall tcall) (option R) nat (rbegin _ _ t_begin)
          (rprog _ _ _ _ (text_body (t_contents contents) (t_bad badl) ce)) (rret _ _ tres) t_env (opt_eqb r_eqb)
          (fuel_for sch calls) (tr_init calls st) (envs_of sch) (wrap_obs o).
 Definition sr_search calls st (sch : list (choice unit)) (o : obs) : bool :=
@@ -299,7 +300,7 @@ Definition decode (x : sx) : option (case * obs) :=
       obind (asListOf (asListOf asPair) contents) (fun contents => obind (asListOf asBool badl) (fun badl =>
       obind (asBool ce) (fun ce => obind (asListOf (asListOf asTC) calls) (fun calls =>
       obind (asStamps st) (fun st =>
-      obind (asListOf asChoiceU sch) (fun sch => obind (asObs io) (fun io =>
+      obind (asListOf asChoiceN sch) (fun sch => obind (asObs io) (fun io =>
       Some (Text contents badl ce calls st sch, io))))))))
   | L [I 2%Z; calls; st; sch; io] =>
       obind (asListOf (asListOf asSC) calls) (fun calls => obind (asStamps st) (fun st =>
